@@ -171,16 +171,16 @@ def run_instance(inst):
         else:
             for solver, vs in inst["backends"]:
                 kw = dict(solver=solver, voltage_solver=vs, delta_t=0.025, t_max=0.03)
+                def ENC(fn, *a_, vs=vs):
+                    r_, it_, _ = _enc(fn, a_, vs, stub, [a, d]); its.append(it_); return r_
                 try:
-                    ra, it1, _ = _enc(lambda arrs: jx.integrate(a, param_state=sa.pstate(arrs), **kw), (sa.arrays(),), vs, stub, [a, d]); its.append(it1)
-                    rd, it2, _ = _enc(lambda arrs: jx.integrate(d, param_state=sd.pstate(arrs), **kw), (sa.arrays(),), vs, stub, [a, d]); its.append(it2)
+                    RA = simenc.Run(lambda arrs, kw=kw: jx.integrate(a, param_state=sa.pstate(arrs), **kw), (sa.arrays(),), ENC)
+                    RD = simenc.Run(lambda arrs, kw=kw: jx.integrate(d, param_state=sd.pstate(arrs), **kw), (sa.arrays(),), ENC)
                 except Exception as ex:
                     viol("SIM", f"{solver}/{vs}: tracing raised {type(ex).__name__}: {str(ex)[:120]}"); continue
-                ra, rd = sym.to_obj(ra), sym.to_obj(rd)
-                if ra.shape != rd.shape: viol("SIM", f"shapes {ra.shape} vs {rd.shape}"); continue
-                verdict, _ = equiv.decide_equal(list(zip(ra.reshape(-1), rd.reshape(-1))), f"C13/SIM/{vs}", timeout=timeout, rng=rng, counters=res["counters"], resolver=stub.resolver, opaque_prefix="sp")
+                verdict, _ = equiv.decide_runs(RA, RD, lambda x, y: (equiv.flat(x), equiv.flat(y)), f"C13/SIM/{vs}", timeout=timeout, rng=rng, counters=res["counters"], resolver=stub.resolver, opaque_prefix="sp")
                 res["counters"][f"SIM_{verdict}"] = res["counters"].get(f"SIM_{verdict}", 0) + 1
-                if verdict == "differs": viol("SIM", f"{solver}/{vs}: simulation of the re-discretised cell differs from the directly built cell")
+                if verdict in ("differs", "shape"): viol("SIM", f"{solver}/{vs}: simulation of the re-discretised cell differs from the directly built cell ({verdict})")
                 elif verdict not in ("structural", "unsat"): res["inconclusive"].append({"instance": inst, "query": f"SIM/{vs}", "reason": verdict})
     res["functions"] = sorted(set().union(*[i.functions for i in its])) if its else ["jaxley/modules/base.py:Module.set_ncomp (executed concretely)"]
     for i in its:
